@@ -191,15 +191,18 @@ def run(prog, rep):
             t = u.types[fn.params[0]["t"]]
             if t.get("k") != "ptr" or u.types[t["p"]].get("k") != "rec":
                 continue
-            if not any(c.get("callee") == "p_free" for g in u.functions.values() for (b, i, c) in g.calls()):
-                continue
             missing = self_release(u, fn, 0, memo)
             if missing is None:
                 # releases its argument on no path at all: a destructor that forgot the object if it releases the object's members,
                 # otherwise not a destructor of this object
                 p0_ = fn.param_names()[0]
                 mem = [c for (b, i, c) in fn.calls() if c.get("callee") in ("p_free", "p_list_free") and c.get("args") and strip_casts(c["args"][0])["k"] == "member" and root_var(c["args"][0]) == p0_]
-                if not mem:
+                # ... or if objects of that record type are allocated in this unit (then this is the type's destructor, whatever is left of it)
+                rec_ = u.types[t["p"]].get("rec")
+                born = any(n["k"] == "asg" and strip_casts(n["r"]) is not None and strip_casts(n["r"])["k"] == "call" and strip_casts(n["r"]).get("callee") in ("p_malloc0", "p_malloc")
+                           and (u.type_of(strip_casts(n["l"])) or {}).get("k") == "ptr" and u.types[u.type_of(strip_casts(n["l"]))["p"]].get("rec") == rec_
+                           for g in u.functions.values() for (b, i, n) in g.nodes(elsewhere=True))
+                if not mem and not born:
                     continue
                 missing = [fn.loc[0]]
             nself += 1
@@ -448,6 +451,8 @@ def released_fields(u, fr, T, seen=None):
 RENAME_LOCALS = ['src/pdir-posix.c', 'src/pshm-posix.c', 'src/psemaphore-posix.c', 'src/plibraryloader-posix.c']
 
 SELFTEST = [
+    dict(id="spinlock-free-forgets-object", file="src/pspinlock-c11.c", expect="C20.1",
+         old="\tp_free (spinlock);", new="\t(void) spinlock;"),
     dict(id="socket-address-free-inverted-guard", file="src/psocketaddress.c", expect="C20.1",
          old="p_socket_address_free (PSocketAddress *addr)\n{\n\tif (P_UNLIKELY (addr == NULL))", new="p_socket_address_free (PSocketAddress *addr)\n{\n\tif (P_UNLIKELY (addr != NULL))"),
     dict(id="ini-parameter-free-forgets-object", file="src/pinifile.c", expect="C20.1",
